@@ -77,4 +77,17 @@ def svOK (callers streamers : List Nat) (g : List Nat) : Bool :=
   callers.all fun b =>
     let before := g.takeWhile (· != b)
     streamers.all fun a => (before.filter (· == a)).length ≤ 1
+
+/-- `SV2` runs: the call of client `b` arrives while the server is forwarding a reply stream - at the moment the stream of
+    client `a` hands over its `k`-th item. From the `k`-th write to `a` on, no streaming client is written to twice before
+    `b` has been answered: while a stream is open other clients are still served. -/
+def svMidOK (trigs : List (Nat × Nat × Nat)) (streamers : List Nat) (g : List Nat) : Bool :=
+  trigs.all fun (a, k, b) =>
+    -- the writes after the k-th write to `a`
+    let rec after (n : Nat) : List Nat → List Nat
+      | [] => []
+      | x :: r => if x == a then (if n + 1 == k then r else after (n + 1) r) else after n r
+    let rest := after 0 g
+    let before := rest.takeWhile (· != b)
+    streamers.all fun a' => (before.filter (· == a')).length ≤ 1
 end SpecSrv
